@@ -240,6 +240,13 @@ def feature_matrix_spec():
     R = lambda t: {"$ref": f"#/components/schemas/{t}"}
     paths["/only/out"] = {"get": {"operationId": "only_out", "responses": {"200": {"description": "ok", "content": {"application/json": {"schema": R("OutBag")}}}}}}
     paths["/only/in"] = {"post": {"operationId": "only_in", "requestBody": {"required": True, "content": {"application/json": {"schema": R("InBag")}}}, "responses": {"204": {"description": "n"}}}}
+    # response sets that differ only by a wrapper around the payload (must not be merged into one enum)
+    nf = {"description": "nf", "content": {"application/json": {"schema": R("Sub")}}}
+    paths["/tags"] = {"get": {"operationId": "list_tags", "responses": {"200": {"description": "ok", "content": {"application/json": {"schema": {"type": "array", "items": {"type": "string"}}}}}, "404": nf}}}
+    paths["/tags/{t}"] = {"get": {"operationId": "get_tag", "parameters": [{"name": "t", "in": "path", "required": True, "schema": {"type": "string"}}],
+                                  "responses": {"200": {"description": "ok", "content": {"application/json": {"schema": {"type": "string"}}}}, "404": nf}}}
+    paths["/tags/{t}/n"] = {"get": {"operationId": "count_tag", "parameters": [{"name": "t", "in": "path", "required": True, "schema": {"type": "string"}}],
+                                    "responses": {"200": {"description": "ok", "content": {"application/json": {"schema": {"type": ["string", "null"]}}}}, "404": nf}}}
     # a type used DIRECTLY in one direction and only through a container in the other
     paths["/shared/in"] = {"post": {"operationId": "shared_in", "parameters": [{"name": "kind", "in": "query", "schema": R("SharedKind")}],
                                     "requestBody": {"required": True, "content": {"application/json": {"schema": R("SharedLeaf")}}}, "responses": {"204": {"description": "n"}}}}
